@@ -102,7 +102,7 @@ pub fn campaigns(ctx: &Ctx) -> Stats {
     // ONE image (or a clone of it) convolved two or three times with filters of one size under DIFFERENT strides (often
     // giving the same output grid), and one filter bank over several images: a result must not depend on what the
     // same buffer was unrolled for before
-    st.merge(ctx.run_indexed("reused-image-under-other-strides", ctx.tier.pick(20_000, 500_000), None, |i| {
+    st.merge(ctx.run_indexed("reused-image-under-other-strides", ctx.tier.pick(100_000, 500_000), None, |i| {
         let z = mix(i ^ 0xC06A ^ ctx.seed.wrapping_mul(0x9E3779B1));
         let depth = 1 + (z % 2) as usize;
         let (ir, ic) = (2 + ((z >> 2) % 6) as usize, 2 + ((z >> 5) % 6) as usize);
